@@ -432,7 +432,10 @@ def r5(F, R):
     for b in sorted(F.bodies.values(), key=lambda x: x.span or ""):
         if b.crate != "cucumber_verif_zoo":
             continue
-        for s, t in b.calls(lambda t: callee_is(t, r"::split_at$")):
+        # the call that cuts the merge prefix off a group name: `split_at` in today's expansion, any other str-splitting call applied to the
+        # `&str` parameter of a small closure over the names otherwise
+        is_name_closure = b.kind == "Closure" and b.arg_count >= 2 and re.sub(r"'\w+ ", "", b.locals[2]).replace(" ", "") in ("&str", "&&str", "&std::string::String", "&&std::string::String")
+        for s, t in b.calls(lambda t: callee_is(t, r"::split_at$") or (is_name_closure and callee_is(t, r"str::<impl str>::(rsplit_once|split_once|rfind|find|rsplitn|splitn|strip_suffix|trim_end_matches)$|::(rsplit_once|split_once)$"))):
             n += 1
             ok = False
             # guard form: the split is under `n.starts_with("__")`
